@@ -108,7 +108,12 @@ def build_executor(plan):
     S.consts["C"] = tables.frame_consts_from_module(channel_mod) if plan.get("table", "module") == "module" else \
         tables.frame_consts_from_reference(channel_mod)
     S.consts["ClosedFile"] = stream_mod.ClosedFile
-    S.consts["errno"] = errno_mod
+    S.consts["errno"] = errno_mod if "errno_mod" in dir() else __import__("errno")
+    import rpyc.core.protocol as protocol_mod, rpyc.core.consts as consts_mod
+    S.consts["HANDLERS"] = protocol_mod.Connection._request_handlers()
+    for _k, _v in vars(consts_mod).items():
+        if _k.isupper():
+            S.consts[_k] = _v
     st = store_mod.Store()
     for m in plan["contracts"]:
         importlib.import_module("contracts." + m).register(st)
@@ -319,8 +324,25 @@ def check_property(pid, tier, seed):
         if not nr.get("error") and nr.get("satisfying", 0) == 0:
             errors.append("vacuity: no native input satisfies the preconditions of %s[%s]" % tb)
     # ---- report --------------------------------------------------------------------------------
+    # each matched known finding: its recorded witness must still fail on this tree (scenario replay); if it does
+    # not, the failing obligation is something else and is reported as a violation
+    reported = set()
     for k, oid in known_hits:
-        print("KNOWN-FINDING: property=%s %s" % (pid, k.get("what", oid)))
+        kid = k.get("id", k.get("what"))
+        if kid not in reported and k.get("replay"):
+            rp = subprocess.run([NATIVE_PY, os.path.join(VERIF, k["replay"]), REPO], capture_output=True, text=True, timeout=300)
+            k["_reproduced"] = (rp.returncode == 1)
+            k["_replay_output"] = (rp.stdout or "")[-400:]
+        reported.add(kid)
+    for k, oid in known_hits:
+        if k.get("replay") and not k.get("_reproduced"):
+            path = write_replay(pid, oid, "", "", {"note": "obligation listed under known finding %s fails, but the recorded witness "
+                                                   "no longer reproduces: %s" % (k.get("id"), k.get("_replay_output"))})
+            violations.append((oid, path, False))
+    for kid in sorted(reported):
+        k = [x for x, _ in known_hits if x.get("id", x.get("what")) == kid][0]
+        if not k.get("replay") or k.get("_reproduced"):
+            print("KNOWN-FINDING: property=%s %s" % (pid, k.get("what", kid)))
     for oid, path, has_input in violations:
         print("VIOLATION property=%s replay=%s%s" % (pid, path, "" if has_input else " no-failing-input-found"))
         print("  failed obligation: %s" % oid)
